@@ -1288,6 +1288,24 @@ func (s *session) committedSnap() *snap {
 	return s.read(state.NewBlockState(s.sdb.OpenNewStateDB(s.sdb.GetRoot())))
 }
 
+// committedAfter reads the committed state back after a block was offered to the validator. If it cannot be
+// read any more (the state DB was damaged: trie nodes referenced by the root are missing), that is itself
+// a violation of "a block that fails leaves the state as it was": reported, the session ends.
+func (s *session) committedAfter(what string) *snap {
+	var sn *snap
+	out, panicked := vh.Guard(func() string {
+		sn = s.committedSnap()
+		_, _ = s.fullSum()
+		return ""
+	})
+	if panicked {
+		s.fail("C03", "after "+what+" the committed state cannot be read back: "+out, "", what)
+		s.aborted = true
+		return nil
+	}
+	return sn
+}
+
 func (s *session) block(gen func(b *blockGen), coinbase int, trials bool) {
 	if s.aborted {
 		return
@@ -1359,7 +1377,11 @@ func (s *session) block(gen func(b *blockGen), coinbase int, trials bool) {
 		for _, v := range s.variants(bg, block, bi, preBlock) {
 			s.reloadGlobals()
 			_, err := chain.VerifC01ExecBlock(s.node, v.block, false)
-			after := s.committedSnap()
+			after := s.committedAfter("a refused block (" + v.kind + ")")
+			if after == nil {
+				s.op(v.line, "state-unreadable", true)
+				return
+			}
 			sumAfter, _ := s.fullSum()
 			impl := "refused-tx"
 			if err == chain.ErrorBlockVerifyStateRoot || err == chain.ErrorBlockVerifyReceiptRoot {
@@ -1390,7 +1412,10 @@ func (s *session) block(gen func(b *blockGen), coinbase int, trials bool) {
 			b := cloneBlock(block, block.Body.Txs)
 			b.Header.ReceiptsRootHash = common.Hasher(append([]byte("y"), block.Header.ReceiptsRootHash...))
 			_, err := chain.VerifC01ExecBlock(s.vnode, b, true)
-			after := s.committedSnap()
+			after := s.committedAfter("a verify-only run")
+			if after == nil {
+				return
+			}
 			if err == nil {
 				s.run.Count("lead8-verify-mode-reports-only")
 			} else {
@@ -1407,7 +1432,10 @@ func (s *session) block(gen func(b *blockGen), coinbase int, trials bool) {
 	if validatorCommit {
 		s.reloadGlobals()
 		vbs, err := chain.VerifC01ExecBlock(s.node, block, false)
-		final = s.committedSnap()
+		final = s.committedAfter("the validator's run of the produced block")
+		if final == nil {
+			return
+		}
 		if err != nil {
 			s.fail("C03", "the validator refused the block the producer built from the same state: "+err.Error(), "", "block "+strconv.FormatUint(bi.No, 10))
 			s.op("vblock ok", "refused-tx | "+final.dump(z), true)
@@ -1513,7 +1541,10 @@ func (s *session) probeBlock(gen func(b *blockGen)) {
 		}
 		s.run.Eval(fmt.Sprintf("probe-validate %d %v", bi.No, err == chain.ErrorBlockVerifySign), true)
 	}
-	after := s.committedSnap()
+	after := s.committedAfter("a block state that was never committed")
+	if after == nil {
+		return
+	}
 	if !bytes.Equal(rootBefore, s.sdb.GetRoot()) || !after.equalState(preBlock) {
 		s.fail("C03", "a block state that was never committed changed the state DB", "", "before "+preBlock.dump(z), "after  "+after.dump(z))
 	}
